@@ -121,6 +121,9 @@ func (a *allocation) refreshAllocation(lifetime time.Duration, dontWait bool) er
 	return nil
 }
 
+// maxPermissionsPerRequest bounds a CreatePermission request to about 1 kB.
+const maxPermissionsPerRequest = 32
+
 func (a *allocation) refreshPermissions() error {
 	// Entries that are still being requested are left out: if the server refuses
 	// one of them, it would refuse the whole refresh with it.
@@ -130,13 +133,20 @@ func (a *allocation) refreshPermissions() error {
 
 		return nil
 	}
-	if err := a.CreatePermissions(addrs...); err != nil {
-		if errors.Is(err, errTryAgain) {
-			return errTryAgain
-		}
-		a.log.Errorf("Fail to refresh permissions: %s", err)
+	// A request naming every peer grows with their number, and what does not fit
+	// the server's receive buffer (1600 bytes by default) is dropped without an
+	// answer: refresh in batches.
+	for len(addrs) > 0 {
+		n := min(len(addrs), maxPermissionsPerRequest)
+		if err := a.CreatePermissions(addrs[:n]...); err != nil {
+			if errors.Is(err, errTryAgain) {
+				return errTryAgain
+			}
+			a.log.Errorf("Fail to refresh permissions: %s", err)
 
-		return err
+			return err
+		}
+		addrs = addrs[n:]
 	}
 	a.log.Debug("Refresh permissions successful")
 
